@@ -109,7 +109,7 @@ func (w *Worker) call(s *State, f *Frame, dest ssa.Value, fv Value, args []Value
 		return in(&icall{w: w, s: s, f: f, dest: dest, args: args, fn: fn.Fn, name: name})
 	}
 	// 2. Go-source models, found by name
-	if m, ok := e.Models[mangle(fn.Fn)]; ok && m != fn.Fn && fn.Fn.Synthetic == "" {
+	if m, ok := e.Models[mangle(fn.Fn)]; ok && m != fn.Fn && fn.Fn.Synthetic == "" && !s.NoModel[mangle(fn.Fn)] {
 		e.hitModel("gomodel:" + mangle(fn.Fn))
 		return w.enter(s, dest, FuncV{Fn: m}, args)
 	}
